@@ -589,3 +589,49 @@ package gts
 //@   ensures guest: forall k in 0..len(q): out[pos+k] == old(q[k])
 //@   ensures tail: forall k in pos..len(p): out[len(q)+k] == old(p[k])
 //@   assigns nothing
+
+// Location methods as seen by the sequence-level operations: pure (no write to existing
+// memory).  What they compute is specified per kind above; at this level only purity is used.
+//@ func (l Location) Shift(i, n int) (out Location)
+//@   trusted interface contract: purity is proved for the leaf kinds (frame obligations of their own contracts); Joined/Ordered/Complemented allocate fresh part lists
+//@   ensures !isnil(out)
+//@   assigns nothing
+//@ func (l Location) Expand(i, n int) (out Location)
+//@   trusted interface contract: purity is proved for the leaf kinds; composites allocate fresh part lists
+//@   ensures !isnil(out)
+//@   assigns nothing
+//@ func (l Location) Reverse(length int) (out Location)
+//@   trusted interface contract: purity is proved for the leaf kinds; composites allocate fresh part lists
+//@   ensures !isnil(out)
+//@   assigns nothing
+//@ func (l Location) Normalize(length int) (out Location)
+//@   trusted interface contract: purity is proved for the leaf kinds; composites allocate fresh part lists
+//@   ensures !isnil(out)
+//@   assigns nothing
+//@ func (l Location) Complement() (out Location)
+//@   trusted interface contract: purity (every implementation wraps or unwraps the receiver)
+//@   ensures !isnil(out)
+//@   assigns nothing
+
+// locLess(a, b): the location order used for sorted insertion (LocationLess as a pure function).
+//@ spec func locLess(a Location, b Location) bool uninterpreted
+//@ func LocationLess(a, b Location) (r bool)
+//@   trusted recursive over nested locations; assumed to be a pure, deterministic function of its arguments (it only reads them)
+//@   ensures r == locLess(a, b)
+//@   assigns nothing
+
+//@ func (ff FeatureSlice) Insert(f Feature) (out FeatureSlice)
+//@   prop C19 C11 C02
+//@   ghost P(z int) int
+//@   ghost_final P(z) := i
+//@   ensures shape: 0 <= P(0) && P(0) <= len(ff) && len(out) == len(ff) + 1 && fresh(out)
+//@   ensures before: forall k in 0..P(0): out[k] == old(ff[k])
+//@   ensures at: out[P(0)] == f
+//@   ensures after: forall k in P(0)+1..len(out): out[k] == old(ff[k-1])
+//@   ensures source_block: forall k in 0..P(0): f.Key == "source" ==> old(ff[k]).Key == "source"
+//@   ensures source_first: f.Key != "source" ==> (forall k in 0..len(ff): (forall j in 0..k+1: old(ff[j]).Key == "source") ==> k < P(0))
+//@   ensures local_order: f.Key != "source" ==> (P(0) == len(ff) || locLess(f.Loc, old(ff[P(0)]).Loc)) &&
+//@      (P(0) == 0 || old(ff[P(0)-1]).Key == "source" || !locLess(f.Loc, old(ff[P(0)-1]).Loc))
+//@   assigns nothing
+//@   loop 1: invariant 0 <= i && i <= len(ff) && (forall k in 0..i: ff[k].Key == "source")
+//@   loop 1: decreases len(ff) - i
